@@ -22,7 +22,13 @@ def main(argv):
         mod = importlib.import_module('mon.props.' + prop.lower())
         s = Session(prop, tier, seed, wi, nw)
         if replay:
-            mod.replay(s, json.load(open(replay)))
+            data = json.load(open(replay))
+            if data.get('witness', {}).get('type') == 'load':
+                # witness of the load-fidelity monitor (harness.Session.load): loading it again re-judges it
+                s.load(data['witness']['doc'])
+                s.evaluations += 1
+            else:
+                mod.replay(s, data)
         else:
             mod.run(s)
         res = s.result()
